@@ -178,14 +178,33 @@ func CallMethod(obj interface{}, methodName string, args ...interface{}) (interf
 			methodName, methodType.NumIn(), len(args))
 	}
 
-	// Prepare arguments
+	// Prepare arguments. reflect.Call panics on a null or wrongly typed
+	// argument just as it does on a wrong count, so each one is checked (and
+	// an integer or float widened to the parameter's numeric type) first.
 	methodArgs := make([]reflect.Value, len(args))
 	for i, arg := range args {
-		methodArgs[i] = reflect.ValueOf(arg)
+		paramType := methodParamType(methodType, i)
+		argValue, convErr := convertMethodArg(arg, paramType)
+		if convErr != nil {
+			return nil, fmt.Errorf("method %s: argument %d: %v", methodName, i+1, convErr)
+		}
+		methodArgs[i] = argValue
 	}
 
-	// Call the method
-	results := method.Call(methodArgs)
+	// Call the method. A provider that panics on the content of an argument
+	// must fail the call, not the request handler.
+	var results []reflect.Value
+	if callErr := func() (err error) {
+		defer func() {
+			if r := recover(); r != nil {
+				err = fmt.Errorf("method %s failed: %v", methodName, r)
+			}
+		}()
+		results = method.Call(methodArgs)
+		return nil
+	}(); callErr != nil {
+		return nil, callErr
+	}
 
 	// Handle return values
 	if len(results) == 0 {
@@ -207,6 +226,48 @@ func CallMethod(obj interface{}, methodName string, args ...interface{}) (interf
 
 	// Return the first result
 	return results[0].Interface(), nil
+}
+
+// methodParamType returns the type of the i-th argument of a method, taking
+// the element type for the variadic tail.
+func methodParamType(methodType reflect.Type, i int) reflect.Type {
+	if methodType.IsVariadic() && i >= methodType.NumIn()-1 {
+		return methodType.In(methodType.NumIn() - 1).Elem()
+	}
+	return methodType.In(i)
+}
+
+// convertMethodArg makes a GlyphLang value acceptable for a parameter type, or
+// reports why it is not.
+func convertMethodArg(arg interface{}, paramType reflect.Type) (reflect.Value, error) {
+	if arg == nil {
+		switch paramType.Kind() {
+		case reflect.Interface, reflect.Ptr, reflect.Map, reflect.Slice, reflect.Func, reflect.Chan:
+			return reflect.Zero(paramType), nil
+		}
+		return reflect.Value{}, fmt.Errorf("null is not a %s", paramType)
+	}
+	value := reflect.ValueOf(arg)
+	if value.Type().AssignableTo(paramType) {
+		return value, nil
+	}
+	if isNumericKind(value.Kind()) && isNumericKind(paramType.Kind()) &&
+		(isFloatKind(paramType.Kind()) || !isFloatKind(value.Kind())) {
+		return value.Convert(paramType), nil
+	}
+	return reflect.Value{}, fmt.Errorf("%T is not a %s", arg, paramType)
+}
+
+func isFloatKind(k reflect.Kind) bool { return k == reflect.Float32 || k == reflect.Float64 }
+
+func isNumericKind(k reflect.Kind) bool {
+	switch k {
+	case reflect.Int, reflect.Int8, reflect.Int16, reflect.Int32, reflect.Int64,
+		reflect.Uint, reflect.Uint8, reflect.Uint16, reflect.Uint32, reflect.Uint64,
+		reflect.Float32, reflect.Float64:
+		return true
+	}
+	return false
 }
 
 // canonicalMethodName maps a called name to its whitelisted Go spelling.
